@@ -302,7 +302,7 @@ _SOLVER_WL = lambda tier, seed: [{"harness": "h_solver", "tag": "solver", "args"
                                  {"harness": "h_solver", "tag": "resume", "args": ["c18r", seed + 1000, 16 if tier == "quick" else 150] + (["full"] if tier == "thorough" else [])}]
 
 PROPS["C05"] = {
-    "modules": ["IbexProofs.Props.C05"],
+    "modules": ["IbexProofs.Props.C05", "IbexProofs.Props.C05loop"],
     "harnesses": ["h_solver"],
     "workloads": _SOLVER_WL,
     "nontrivial": _solver_nontrivial,
